@@ -354,6 +354,7 @@ impl Sparse<f64> {
             panic!( "Sparse matrix solve_bicg: itol must be 1 or 2." );
         }
         // Initial residual test and zero-norm guard (as in the other solvers)
+        if !bnrm.is_finite() { return Err( bnrm ); } // ||b|| overflowed: every residual / ||b|| would read as 0
         if bnrm == 0.0 { bnrm = 1.0; }
         err = if itol == 1 { r.norm_2() / bnrm } else { z.norm_2() / bnrm };
         if err <= tol && Self::all_finite( x ) { return Ok( 0 ); }
@@ -424,6 +425,7 @@ impl Sparse<f64> {
         let mut normb = b.norm_2();
         let mut r = b.clone() - self.multiply( x );
         let rtilde = r.clone();
+        if !normb.is_finite() { return Err( normb ); } // ||b|| overflowed: every residual / ||b|| would read as 0
         if normb == 0.0 { normb = 1.0; }
         resid = r.norm_2() / normb;
         if resid <= tol && Self::all_finite( x ) { return Ok( 0 ); }
@@ -494,6 +496,7 @@ impl Sparse<f64> {
         let mut normb = b.norm_2();
         let mut r = b.clone() - self.multiply( x );
 
+        if !normb.is_finite() { return Err( normb ); } // ||b|| overflowed: every residual / ||b|| would read as 0
         if normb == 0.0 { normb = 1.0; }
         resid = r.norm_2() / normb;
         if resid <= tol && Self::all_finite( x ) { return Ok( 0 ); }
@@ -569,6 +572,7 @@ impl Sparse<f64> {
 
         let mut normb = b.norm_2();
         r = b.clone() - self.multiply( x );
+        if !normb.is_finite() { return Err( normb ); } // ||b|| overflowed: every residual / ||b|| would read as 0
         if normb == 0.0 { normb = 1.0; }
         resid = r.norm_2() / normb;
         if resid <= tol && Self::all_finite( x ) { return Ok( 0 ); }
